@@ -130,16 +130,16 @@ Proof.
     + left. reflexivity.
 Qed.
 
-Lemma arr_scan_best v : FinV v -> forall R P u1 u2 j1o j2o,
-  (forall j c, In (j, c) R -> (j < n)%nat /\ exists z, c = Fin z) ->
+Lemma arr_scan_best v : forall R P u1 u2 j1o j2o,
+  (forall j c, In (j, c) R -> (exists z, c = Fin z) /\ exists z, gete v j = Fin z) ->
   NoDup (map fst (P ++ R)) ->
   Best v P u1 u2 j1o j2o ->
   Best v (P ++ R) (fst (fst (fst (arr_scan v R u1 u2 j1o j2o)))) (snd (fst (fst (arr_scan v R u1 u2 j1o j2o))))
        (snd (fst (arr_scan v R u1 u2 j1o j2o))) (snd (arr_scan v R u1 u2 j1o j2o)).
 Proof.
-  intros [_ HV]. induction R as [|[j c] R IH]; intros P u1 u2 j1o j2o HR ND B.
+  induction R as [|[j c] R IH]; intros P u1 u2 j1o j2o HR ND B.
   - cbn [arr_scan fst snd]. rewrite app_nil_r. exact B.
-  - destruct (HR j c (or_introl eq_refl)) as [Hj [cz ->]]. destruct (HV j Hj) as [z Hz].
+  - destruct (HR j c (or_introl eq_refl)) as [[cz ->] [z Hz]].
     assert (Hnew : ~ In j (map fst P)).
     { rewrite map_app in ND. cbn [map fst] in ND. apply NoDup_remove_2 in ND.
       intros Hin. apply ND. apply in_app_iff. left; auto. }
@@ -164,7 +164,9 @@ Proof.
   intros HV Hi.
   assert (B0 : Best v [] PInf PInf j1s j2s).
   { constructor; try (intros ? ? []); cbn; auto. }
-  pose proof (arr_scan_best v HV (row i) [] PInf PInf j1s j2s (Rfin i) (Rnodup i) B0) as B.
+  assert (HRow : forall j c, In (j, c) (row i) -> (exists z, c = Fin z) /\ exists z, gete v j = Fin z).
+  { intros j c Hin. destruct (Rfin i j c Hin) as [Hj Hc]. split; auto. apply HV; auto. }
+  pose proof (arr_scan_best v (row i) [] PInf PInf j1s j2s HRow (Rnodup i) B0) as B.
   cbn [app] in B.
   destruct (arr_scan v (row i) PInf PInf j1s j2s) as [[[u1 u2] j1o] j2o]. cbn [fst snd] in B.
   destruct B as [B1 B2 B3 B4 B5].
